@@ -1,6 +1,8 @@
 import JunoModel.Common.Proto
 import JunoModel.C11.Model
 import JunoModel.C11.ModelGo
+import JunoModel.C11.ModelTransport
+import JunoModel.C11.ModelPretty
 /-!
 Line-protocol driver for the C11 model (`lake build c11drv`).
 
@@ -13,7 +15,14 @@ Requests:
   `tbl <k> { <name s-token> <behaviour> <nparams> { <pname s-token> <optional 0|1> <type> } }`      -> `ok`
   `in <leadWs> <firstIsBracket 0|1> x`            (first JSON value does not parse)
   `in <leadWs> <firstIsBracket 0|1> v <tokens>`   -> tokens of `[[body]?, [[name, [args]]...]]` or `dk`
-  `felt <s-token>` -> `none` | `<value hex> <bitLen> <maxbits64 0|1> <version03 0|1>`
+  `http <get|post|other> <pathIsRoot 0|1> <leadWs> <firstIsBracket> (x | v <tokens>)`
+        -> `<status> <json 0|1> ` + tokens of `[[body]?, log]`, or `dk`
+  `ws <k> { <leadWs> <firstIsBracket> (x | v <tokens>) }` -> tokens of `[[wire...], log]` or `dk`
+  `pretty <k> <chunk length>*k <hex of all bytes read> (syntax <off> | type <off> | eof | other)`
+        -> `none` | `<line> <col>`  (pretty_error.go: where the caret goes)
+  `f64 <number literal>` -> what json.Marshal writes for the float64 it parses to, or `err`
+  `defaults` -> `<peekLimit n|-> <nullForNilResult 0|1> <silentNotificationErrors 0|1>` of `junoCfg`
+  `felt <s-token>` -> `none` | `<value hex> <bitLen> <maxbits64 0|1> <maxbits128 0|1> <version03 0|1>`
 -/
 open Juno.Proto Juno.C11
 
@@ -137,15 +146,42 @@ partial def parseMethods : Nat → List String → Option (List (Method × Behav
     pure (({ name, params := ps }, beh) :: ms, r2)
   | _, _ => none
 
-def answer (st : St) (inp : Input) : String :=
-  let run (strict : Bool) : String :=
-    let out := handleInput st.cfg (goEnv strict st.beh) st.tbl inp
-    let body : Json := match out.body with | none => .arr [] | some b => .arr [b]
-    let log : Json := .arr (out.log.map (fun c => .arr [.str c.1, .arr c.2]))
-    render (.arr [body, log])
-  let a := run true
-  let b := run false
+def logJson (log : List Call) : Json := .arr (log.map (fun c => .arr [.str c.1, .arr c.2]))
+
+/-- run `f` with the strict and the lenient reading of unsafe numbers at `any`; `dk` if they differ -/
+def both (st : St) (f : Env → String) : String :=
+  let a := f (goEnv true st.beh)
+  let b := f (goEnv false st.beh)
   if a == b then a else "dk"
+
+def answer (st : St) (inp : Input) : String :=
+  both st fun env =>
+    let out := handleInput st.cfg env st.tbl inp
+    let body : Json := match out.body with | none => .arr [] | some b => .arr [b]
+    render (.arr [body, logJson out.log])
+
+def parseInput : List String → Option (Input × List String)
+  | lw :: fb :: "x" :: rest => do
+    let lw ← natOfChars lw.toList
+    let fb ← bool01? fb
+    pure ({ leadWs := lw, firstIsBracket := fb, parsed := none }, rest)
+  | lw :: fb :: "v" :: toks => do
+    let lw ← natOfChars lw.toList
+    let fb ← bool01? fb
+    let (j, rest) ← parseJson toks
+    pure ({ leadWs := lw, firstIsBracket := fb, parsed := some j }, rest)
+  | _ => none
+
+partial def parseInputs : Nat → List String → Option (List Input × List String)
+  | 0, rest => some ([], rest)
+  | k + 1, toks => do
+    let (i, r1) ← parseInput toks
+    let (is, r2) ← parseInputs k r1
+    pure (i :: is, r2)
+
+def httpMethod? : String → Option HttpMethod
+  | "get" => some .get | "post" => some .post | "other" => some .other
+  | _ => none
 
 def step (st : St) (line : String) : St × String :=
   match words line with
@@ -165,20 +201,62 @@ def step (st : St) (line : String) : St × String :=
       | some (ms, []) => ({ st with tbl := ms.map (·.1), beh := ms.map (fun mb => (mb.1.name, mb.2)) }, "ok")
       | _ => (st, "bad-op")
     | none => (st, "bad-op")
-  | ["in", lw, fb, "x"] =>
-    match natOfChars lw.toList, bool01? fb with
-    | some lw, some fb => (st, answer st { leadWs := lw, firstIsBracket := fb, parsed := none })
-    | _, _ => (st, "bad-op")
-  | "in" :: lw :: fb :: "v" :: toks =>
-    match natOfChars lw.toList, bool01? fb, parseJson toks with
-    | some lw, some fb, some (j, []) => (st, answer st { leadWs := lw, firstIsBracket := fb, parsed := some j })
+  | "in" :: rest =>
+    match parseInput rest with
+    | some (inp, []) => (st, answer st inp)
+    | _ => (st, "bad-op")
+  | "http" :: m :: root :: rest =>
+    match httpMethod? m, bool01? root, parseInput rest with
+    | some m, some root, some (inp, []) =>
+      (st, both st fun env =>
+        let r := serveHTTP st.cfg env st.tbl { method := m, pathIsRoot := root, body := inp }
+        let body : Json := match r.body with | none => .arr [] | some b => .arr [b]
+        s!"{r.status} {if r.json then 1 else 0} " ++ render (.arr [body, logJson r.log]))
     | _, _, _ => (st, "bad-op")
+  | "ws" :: k :: rest =>
+    match natOfChars k.toList with
+    | some k =>
+      match parseInputs k rest with
+      | some (msgs, []) =>
+        (st, both st fun env =>
+          let outs := wsSession st.cfg env st.tbl msgs
+          render (.arr [.arr (wsWire outs), logJson (wsLog outs)]))
+      | _ => (st, "bad-op")
+    | none => (st, "bad-op")
+  | "pretty" :: k :: rest =>
+    match natOfChars k.toList with
+    | none => (st, "bad-op")
+    | some k =>
+      let lens := (rest.take k).map (fun w => natOfChars w.toList)
+      match rest.drop k with
+      | hex :: errToks =>
+        let err : Option Pretty.DecodeErr := match errToks with
+          | ["syntax", o] => o.toInt?.map Pretty.DecodeErr.syntax
+          | ["type", o] => o.toInt?.map Pretty.DecodeErr.type
+          | ["eof"] => some .eof
+          | ["other"] => some .other
+          | _ => none
+        match hexToBytes? hex, err with
+        | some bytes, some err =>
+          if lens.any Option.isNone then (st, "bad-op") else
+          let ls := lens.filterMap id
+          if ls.foldl (· + ·) 0 != bytes.length then (st, "bad-op") else
+          let chunks : List (List UInt8) := (ls.foldl (fun (acc : List (List UInt8) × List UInt8) n =>
+            (acc.1 ++ [acc.2.take n], acc.2.drop n)) ([], bytes)).1
+          match Pretty.position (Pretty.Win.writes {} chunks) err with
+          | none => (st, "none")
+          | some p => (st, s!"{p.line} {p.col}")
+        | _, _ => (st, "bad-op")
+      | _ => (st, "bad-op")
+  | ["f64", t] => (st, match F64.roundTrip t with | some r => r | none => "err")
+  | ["defaults"] =>
+    (st, s!"{match junoCfg.peekLimit with | none => "-" | some n => toString n} {if junoCfg.nullForNilResult then 1 else 0} {if junoCfg.silentNotificationErrors then 1 else 0}")
   | ["felt", t] =>
     match nameTok? t with
     | some s =>
       match feltOf s with
       | none => (st, "none")
-      | some n => (st, s!"{natToHex n} {bitLen n} {if feltMaxBits n 64 then 1 else 0} {if version03 n then 1 else 0}")
+      | some n => (st, s!"{natToHex n} {bitLen n} {if feltMaxBits n 64 then 1 else 0} {if feltMaxBits n 128 then 1 else 0} {if version03 n then 1 else 0}")
     | none => (st, "bad-op")
   | _ => (st, "bad-op")
 
